@@ -4,9 +4,16 @@
    W w r f is a source positioned on a content w (limit |w|) followed by
    arbitrary octets r, with fault budget f.  Win m: for any two continuations
    r1 r2 of the same content, m returns the same result and, on success, has
-   consumed the same prefix of w only (see Proofs/WinP.v). *)
+   consumed the same prefix of w only (see Proofs/WinP.v).
+
+   All of this is about caller code that lets an error end the read. Caller code
+   that SWALLOWS the error of a failed nested read and carries on is outside the
+   model's program language; it is decided on the implementation by stream
+   c03.lenient. That stream found defect D23 (inside definite-length values;
+   repaired in /repo) and known finding D24 (inside indefinite-length values),
+   which C03_carrying_on_inside_indefinite_refuted exhibits in the model. *)
 Require Import BV.Model.Base BV.Model.SrcB BV.Model.Length BV.Model.Tag BV.Model.Content BV.Model.Prog.
-Require Import BV.Proofs.WinP.
+Require Import BV.Proofs.WinP BV.Proofs.GrammarP BV.Proofs.LenientP.
 
 (* Whatever finite sequence of Source operations caller code performs on the
    content of a value - requesting more than exists, taking octets, slices or
@@ -50,6 +57,16 @@ Example C03_ex :
   = Ok [7; 8; -1; -2]%Z.
 Proof. vm_compute. reflexivity. Qed.
 
+(* known finding D24, exhibited in the model: inside an indefinite-length value, caller code that swallows the
+   error of a failed read and carries on gets the enclosing read to succeed with content unread, and the read
+   that follows does not find what follows in the input, while reading the same input conventionally does *)
+Theorem C03_carrying_on_inside_indefinite_refuted :
+  fst (lenient_prog (mkCons Unbounded Cer) (pure_src lenient_input None)) = Ok (Some tt, None) /\
+  fst ((a <- process_next_value (mkCons Unbounded Cer) (Some T_SEQUENCE) (as_cons (fun c => r <- read_all 5 c ;; ret (tt, snd r))) ;;
+        b <- process_next_value (snd a) None (rd 5) ;; ret (fst a, fst b)) (pure_src lenient_input None))
+  = Ok (Some tt, Some (TPrim (223, 127, 0, 0) [90])).
+Proof. exact lenient_indefinite_witness. Qed.
+
 Print Assumptions C03_script_window.
 Print Assumptions C03_script_observations.
 Print Assumptions C03_unread_content_fails.
@@ -57,3 +74,4 @@ Print Assumptions C03_header_processing_window.
 Print Assumptions C03_take_all_window.
 Print Assumptions C03_take_u8_window.
 Print Assumptions C03_advance_window.
+Print Assumptions C03_carrying_on_inside_indefinite_refuted.
